@@ -137,6 +137,22 @@ def term(fid: str, kw: dict, n_out: int = 1, gen: bool = False):
     return tuple((f"{fid}#{i}", args) for i in range(n_out))
 
 
+class UTerm(tuple):
+    """A term that cannot be copied or pickled (stands for a value owning a lock, socket, client, generator ...).
+    It equals, hashes and prints like the plain tuple; only copy.copy / copy.deepcopy / pickle refuse it."""
+
+    __slots__ = ()
+
+    def __deepcopy__(self, memo):
+        raise TypeError("cannot pickle '_thread.lock' object")
+
+    def __copy__(self):
+        raise TypeError("cannot pickle '_thread.lock' object")
+
+    def __reduce_ex__(self, protocol):
+        raise TypeError("cannot pickle '_thread.lock' object")
+
+
 def sel(v: Any) -> int:
     """Deterministic integer selector of any value (hash-seed independent)."""
     if isinstance(v, bool):
